@@ -220,30 +220,37 @@ func withinWrappers(fn *ssa.Function, allowed []string, depth int) bool {
 	return true
 }
 
-var c8Wrappers = map[string][2][]string{
-	"go.uber.org/zap/zapcore._jsonPool":              {{"(*go.uber.org/zap/zapcore.jsonEncoder).clone"}, {"go.uber.org/zap/zapcore.putJSONEncoder"}},
-	"go.uber.org/zap/zapcore._sliceEncoderPool":      {{"go.uber.org/zap/zapcore.getSliceEncoder"}, {"go.uber.org/zap/zapcore.putSliceEncoder"}},
-	"go.uber.org/zap/zapcore._cePool":                {{"go.uber.org/zap/zapcore.getCheckedEntry"}, {"go.uber.org/zap/zapcore.putCheckedEntry"}},
-	"go.uber.org/zap/zapcore._errArrayElemPool":      {{"go.uber.org/zap/zapcore.newErrArrayElem"}, {"(*go.uber.org/zap/zapcore.errArrayElem).Free"}},
-	"go.uber.org/zap._errArrayElemPool":              {{"(go.uber.org/zap.errArray).MarshalLogArray"}, {"(go.uber.org/zap.errArray).MarshalLogArray"}},
-	"go.uber.org/zap/internal/stacktrace._stackPool": {{"go.uber.org/zap/internal/stacktrace.Capture"}, {"(*go.uber.org/zap/internal/stacktrace.Stack).Free"}},
-	"go.uber.org/zap/buffer.Pool.p":                  {{"(go.uber.org/zap/buffer.Pool).Get"}, {"(go.uber.org/zap/buffer.Pool).put"}},
-}
-
-// c8ReleaseFns: the functions that hand an object back to its pool.
-func c8ReleaseFns() map[string]bool {
-	out := map[string]bool{"(*go.uber.org/zap/buffer.Buffer).Free": true}
-	for _, w := range c8Wrappers {
-		for _, p := range w[1] {
-			out[p] = true
+// c8ReleaseFns: the functions that hand an object back to its pool - Pool.Put and Buffer.Free themselves, and every
+// function that passes its own receiver or parameter to one of them (found in the program, not listed).
+func c8ReleaseFns(c *Ctx) map[string]bool {
+	out := map[string]bool{"(*go.uber.org/zap/buffer.Buffer).Free": true, poolPut: true}
+	for _, pd := range discoverPools(c) {
+		for _, cl := range pd.puts {
+			if f := c8ReleaseWrapper(cl); f != nil {
+				out[f.String()] = true
+			}
 		}
 	}
 	return out
 }
 
+// c8ReleaseWrapper: the Put releases the enclosing function's own receiver/parameter, i.e. the function is a release
+// function and the object's life ends at its call sites.
+func c8ReleaseWrapper(put ssa.CallInstruction) *ssa.Function {
+	args := Args(put)
+	fn := put.Parent()
+	if len(args) != 2 || fn.Parent() != nil {
+		return nil
+	}
+	if p, ok := Strip(args[1]).(*ssa.Parameter); ok && p.Parent() == fn {
+		return fn
+	}
+	return nil
+}
+
 func checkC08(c *Ctx) {
 	c.Rule("R8.1", "reset completeness: every mutable field of a pooled struct is neutralised before Put or reassigned after Get", 7)
-	c.Rule("R8.2", "Pool.Get/Put are called only from the designated wrappers", 9)
+	c.Rule("R8.2", "every Pool.Get/Put site is accounted for: Put of a function's own parameter makes it a release function, any other Put is a release point in place", 9)
 	c.Rule("R8.3", "no use of an object, and no escaping reference into its storage, after it was released", 8)
 	c.Rule("R8.4", "a buffer is released at most once: field cleared (or holder recycled) after Free; EncodeEntry's buffer freed exactly once after the write", 3)
 	c.Rule("R8.5", "pooled-buffer fields are only assigned nil or a buffer fresh from the pool (exclusive ownership)", 2)
@@ -252,33 +259,29 @@ func checkC08(c *Ctx) {
 	if len(pools) < 7 {
 		c.Bad("R8.1", "pools", "count", token.NoPos, "expected at least 7 pools, discovered %d", len(pools))
 	}
-	wrappers := c8Wrappers
 	exemptFields := map[string]string{
 		"go.uber.org/zap/internal/stacktrace.Stack.storage": "capacity only: pcs is re-sliced from it in Capture before any read; its old contents are overwritten by runtime.Callers up to the count that is then used",
 		"go.uber.org/zap/buffer.Buffer.pool":                "reassigned by Pool.Get on every hand-out (checked as get-side assignment)",
 	}
 	releaseFns := map[string]bool{}
 	for _, pd := range pools {
-		w, known := wrappers[pd.name]
-		if !known {
-			c.Und("R8.2", pd.name, "wrappers", token.NoPos, "new pool %s: no get/put wrapper designated in the table", pd.name)
-			continue
+		// every hand-out and hand-back site is accounted for: a Put of the function's own receiver/parameter makes that
+		// function a release function (its call sites are then release points for R8.3); any other Put releases an
+		// object in the function that holds it, and is a release point itself
+		if len(pd.gets) == 0 || len(pd.puts) == 0 {
+			c.Bad("R8.2", pd.name, "sites", token.NoPos, "pool %s has %d Get and %d Put call sites (an object that is never handed back, or never handed out)", pd.name, len(pd.gets), len(pd.puts))
 		}
-		for _, p := range w[1] {
-			releaseFns[p] = true
+		for k, cl := range pd.gets {
+			c.OK("R8.2", pd.name, "Get#"+itoa(k+1), cl.Pos(), "Pool.Get on %s in %s: the fields written during use are reassigned here or neutralised before Put (R8.1)", pd.name, cl.Parent())
 		}
-		chk := func(calls []ssa.CallInstruction, allowed []string, what string) {
-			if len(calls) == 0 {
-				c.Bad("R8.2", pd.name, what, token.NoPos, "no %s call found for pool %s", what, pd.name)
+		for k, cl := range pd.puts {
+			if f := c8ReleaseWrapper(cl); f != nil {
+				releaseFns[f.String()] = true
+				c.OK("R8.2", pd.name, "Put#"+itoa(k+1), cl.Pos(), "Pool.Put on %s releases %s's own %s: %s is a release function, its %d call site(s) are release points (R8.3)", pd.name, f, Desc(Args(cl)[1]), f.Name(), len(sitesOf(f)))
+			} else {
+				c.OK("R8.2", pd.name, "Put#"+itoa(k+1), cl.Pos(), "Pool.Put on %s in %s releases %s where it is held: the call is a release point itself (R8.3)", pd.name, cl.Parent(), Desc(Args(cl)[1]))
 			}
-			for k, cl := range calls {
-				fn := cl.Parent().String()
-				ok := withinWrappers(cl.Parent(), allowed, 0)
-				c.Check(ok, "R8.2", pd.name, what+"#"+itoa(k+1)+"@"+fn, cl.Pos(), "Pool.%s on %s is called from %s (designated wrapper(s): %v)", what, pd.name, fn, allowed)
-			}
 		}
-		chk(pd.gets, w[0], "Get")
-		chk(pd.puts, w[1], "Put")
 		if pd.elem == nil {
 			c.Und("R8.1", pd.name, "elem", token.NoPos, "cannot determine the pooled struct type")
 			continue
@@ -338,6 +341,7 @@ func checkC08(c *Ctx) {
 		}
 	}
 	releaseFns["(*go.uber.org/zap/buffer.Buffer).Free"] = true
+	releaseFns[poolPut] = true
 	c8UseAfterRelease(c, "R8.3", releaseFns)
 	c8SingleRelease(c)
 	c8Ownership(c)
@@ -666,13 +670,29 @@ func c8SingleRelease(c *Ctx) {
 	}
 }
 
-func isFreshBuffer(v ssa.Value) bool {
+func isFreshBuffer(v ssa.Value) bool { return freshBuffer(v, 0) }
+
+func freshBuffer(v ssa.Value, depth int) bool {
 	call, ok := Strip(v).(*ssa.Call)
 	if !ok {
 		return false
 	}
 	if IsCallTo(call, "(go.uber.org/zap/buffer.Pool).Get") {
 		return true
+	}
+	// a function that only hands on what the pool handed out
+	if sc := call.Call.StaticCallee(); sc != nil && len(sc.Blocks) > 0 && depth < 3 && TypeName(call.Type()) == "*buffer.Buffer" {
+		rets := Returns(sc)
+		all := len(rets) > 0
+		for _, r := range rets {
+			rv := RetVals(r)
+			if len(rv) != 1 || !freshBuffer(rv[0], depth+1) {
+				all = false
+			}
+		}
+		if all {
+			return true
+		}
 	}
 	d := Desc(call.Call.Value)
 	return d == "Get" && TypeName(call.Type()) == "*buffer.Buffer"
